@@ -525,6 +525,63 @@ def generic_check(pid, tier, seed, script_kind, rule, nprogs, nscripts, length, 
     return chk, traces
 
 
+def sanitizer_after(chk, traces, tier, seed):
+    progs, seen = [], set()
+    for trc in traces:
+        if id(trc['prog']) not in seen:
+            seen.add(id(trc['prog']))
+            progs.append(trc['prog'])
+    # programs with a rerouted (MTS) port first: that is where closures outlive the caller's frame
+    progs.sort(key=lambda p: -sum(1 for r in p.info.route() if r.get('sem') == 'MTS'))
+    sanitizer_pass(chk, progs, random.Random(seed * 77 + 1), 8 if tier == 'quick' else 48, 3 if tier == 'quick' else 6,
+                   40 if tier == 'quick' else 80)
+    chk.trusted = list(getattr(chk, 'trusted', [])) + ['AddressSanitizer/UBSan of g++ 12 (leak detection off: the mock runtime leaks by design)']
+
+
+SAN_FLAGS = ['-fsanitize=address,undefined', '-fno-omit-frame-pointer', '-g']
+
+
+def sanitizer_pass(chk, progs, rng, nprogs, nscripts, length):
+    """The same generated shells, compiled with AddressSanitizer + UBSan, driven by fresh event scripts: a lifetime error
+    in the forwarding code (an argument captured by reference that is gone when the dispatcher runs the closure, a
+    dangling port reference) is reported by the sanitizer at the forwarding step itself, whether or not the stale memory
+    still happens to hold the right value."""
+    from concurrent.futures import ThreadPoolExecutor  # pylint: disable=import-outside-toplevel
+    twins = []
+    for prog in progs[:nprogs]:
+        twin = cxx.Program(prog.decls, prog.cfg, flags=SAN_FLAGS)
+        twin.files, twin.grant = prog.files, prog.grant
+        twins.append(twin)
+    oks = cxx.compile_many(twins)
+    jobs = []
+    for twin, okay in zip(twins, oks):
+        if not okay:
+            chk.notes.append('sanitizer twin does not compile: ' + (twin.error or '')[:160])
+            continue
+        for _ in range(nscripts):
+            jobs.append((twin, event_script(twin.info.route(), twin.info.origin, rng, length, twin.grant)))
+
+    def one(job):
+        twin, cmds = job
+        return twin, cmds, twin.run([cmd_line(c) for c in cmds], env={'ASAN_OPTIONS': 'detect_leaks=0', 'UBSAN_OPTIONS': 'print_stacktrace=1:halt_on_error=1'})
+    reports = 0
+    with ThreadPoolExecutor(max_workers=min(core.NCPU, 12)) as pool:
+        for num, (twin, cmds, replies) in enumerate(pool.map(one, jobs)):
+            chk.count(('sanitizer', num))
+            last = replies[-1] if replies else {}
+            err = last.get('stderr') or ''
+            if last.get('cmd') == 'CRASH' and ('Sanitizer' in err or 'runtime error:' in err):
+                reports += 1
+                if reports > 6:
+                    continue
+                first = next((ln for ln in err.splitlines() if 'ERROR: ' in ln or 'runtime error:' in ln), err[:200])
+                where = next((ln.strip() for ln in err.splitlines() if 'AdvShell' in ln or 'Shell.cc' in ln or 'Shell.hh' in ln), '')
+                chk.violation(f'memory/undefined-behaviour error in the compiled shell while events are forwarded: {first[:200]} {where[:160]}',
+                              {'decls': twin.decls, 'cfg': twin.cfg, 'commands': [cmd_line(c) for c in cmds],
+                               'sanitizer_output': err[:3000]}, {'kind': 'sanitizer-report'})
+    chk.sanitizer_runs = getattr(chk, 'sanitizer_runs', 0) + len(jobs)
+
+
 def check_c01(tier, seed):
     rule = ('random well-formed models (1-4 ports over 1-3 interfaces, 6 in-event and 3 out-event shapes with in/out/inout '
             'parameters of two distinct C++ types, ports sharing an interface, component in global/nested namespaces, '
@@ -533,8 +590,9 @@ def check_c01(tier, seed):
             'steps); every observation (which handler received which event with which argument values in which context, '
             'replies and out-argument values handed back) must be the one ShellRuntime.tla prescribes for the routing table. '
             'distinct = (program, script) executions.')
-    chk, _ = generic_check('C01', tier, seed, 'events', rule, 24 if tier == 'quick' else 160, 6 if tier == 'quick' else 10,
-                        40 if tier == 'quick' else 80)
+    chk, traces = generic_check('C01', tier, seed, 'events', rule, 24 if tier == 'quick' else 160, 6 if tier == 'quick' else 10,
+                                40 if tier == 'quick' else 80)
+    sanitizer_after(chk, traces, tier, seed)
     mc_replay(chk, tier, None)
     return chk.finish()
 
@@ -545,8 +603,9 @@ def check_c02(tier, seed):
             'at once, STS events run on the caller\'s thread and never touch the queue; accessor types (Sts<I>/Mts<I>) are '
             'static_asserts generated from the routing table, identity of the accessor port with the component\'s own port '
             'is probed.')
-    chk, _ = generic_check('C02', tier, seed, 'events', rule, 24 if tier == 'quick' else 160, 6 if tier == 'quick' else 10,
-                        40 if tier == 'quick' else 80)
+    chk, traces = generic_check('C02', tier, seed, 'events', rule, 24 if tier == 'quick' else 160, 6 if tier == 'quick' else 10,
+                                40 if tier == 'quick' else 80)
+    sanitizer_after(chk, traces, tier, seed)
     mc_replay(chk, tier, ['plain'])
     return chk.finish()
 
